@@ -86,3 +86,29 @@ def run(ctx, rep):
                              {"raw": raw, "digit": dig, "tenths": t})
     rep.sample({"body": bytes(bs[0]).hex(), "exposed": res[0][1][0]})
     rep.sample({"body": bytes(bs[-1]).hex(), "exposed": res[-1][1][0]})
+    # ---- one device object over several refreshes: a report is decoded the same whatever the object saw or was told before ----
+    # (report S; local attributes changed through setters, or another report T; then S again: the attributes are S's once more)
+    setters = {"power": (11, [0, 1]), "mode": (13, [1, 2, 3, 4, 5]), "target": (12, list(range(34, 61))), "fan": (14, [20, 40, 60, 80, 102]),
+               "swing": (15, [0, 3, 12, 15]), "eco": (16, [0, 1]), "turbo": (17, [0, 1]), "sleep": (19, [0, 1]), "fahrenheit": (20, [0, 1])}
+    k = max(1, len(D.run_impl([(1, 0)], [[A.mk_frame(bs[0])]])[3]))          # requests per refresh of a fresh object
+    seq, want = [], []
+    for i in range(ctx.n(250, 4000)):
+        S, T = bs[rng.randrange(len(bs))], bs[rng.randrange(len(bs))]
+        frS, frT = A.mk_frame(S, check="crc"), A.mk_frame(T, check="sum")
+        one = lambda fr: [[fr]] + [[]] * (k - 1)        # noqa: E731
+        if i % 2 == 0:
+            chosen = rng.sample(sorted(setters), 4)
+            mid = [(setters[n][0], rng.choice(setters[n][1])) for n in chosen]
+            seq.append(([(1, 0)] + mid + [(1, 0)], one(frS) + one(frS), rng.randrange(256)))
+        else:
+            seq.append(([(1, 0), (1, 0), (1, 0)], one(frS) + one(frT) + one(frS), rng.randrange(256)))
+        want.append(S)
+    res2 = D.compare(ctx, rep, seq, tag="refresh-sequence")
+    ref2 = ctx.model.batch([(F_REPORT, [b, [1]]) for b in want])
+    for c, b, r, (rst, routs) in zip(seq, want, res2, ref2):
+        rep.case(("seq", tuple(b), str(c[0])), "same-object-sequence")
+        row = r[1][0]
+        view = row[1:18] + [row[24]]
+        if r[0] != 0 or rst != 0 or view != routs[0]:
+            rep.fail("oracle", "attribute-differs:after-earlier-reports-or-setters", {"ops": c[0], "last_report_body": bytes(b).hex(),
+                     "reports": [[bytes(f).hex() for f in ex] for ex in c[1]]}, {"status": r[0], "exposed": view, "reference_reading_of_last_report": routs[0] if rst == 0 else None})
